@@ -48,7 +48,7 @@ def run(tier):
         if e["ev"] == "Reply":
             rep.count_case(["reply", e["x"], e["r"], e["known"], e["nodes"], e["rank"]])
     for v in lres["viol"]:
-        if v["site"] == "handle_lookup_request":
+        if v["site"] in ("handle_lookup_request", "find_closest_nodes_local"):
             rep.violation(v["clause"], v["site"], v["cond"], {"line": v["line"], "event": lrecs[v["line"] - 1]})
     rep.coverage["replies_checked"] = lres["replies"]
     # 2c. spec -> impl: TLC-generated behaviours of the table model replayed on the real engine, answers compared after every step
